@@ -15,7 +15,9 @@ import (
 //     none matched); newEventStream: the channel capacity; eventStream.stream: ranges over eventCh;
 //   - queryResponseStream.Stream: the select loop — each receive uses the ok flag and its !ok
 //     branch is exactly `ch = nil; continue`, a failing send returns, sendDone is called at exactly
-//     one place, in the `<-done` case, which returns; no break statement; the for has no condition.
+//     one place, in the `<-done` case, which returns; no break statement; the for has no condition;
+//     the prologue is exactly the four definitions (deadline timer armed unconditionally from
+//     resp.Deadline(), the two channels) with no other statement — in particular no early return.
 
 func countWrites(body ast.Node, targets map[string]bool) int {
 	n := 0
@@ -191,12 +193,25 @@ func genIpcStreamShape(repo string) (string, error) {
 		return "", fmt.Errorf("Stream not found")
 	}
 	var loop *ast.ForStmt
+	// prologue: the statements before the loop, as `name := expr` pairs; anything else is counted
+	var prologue []string
+	prologueOther, afterLoop := 0, 0
 	for _, s := range qs.Body.List {
 		if f, ok := s.(*ast.ForStmt); ok {
 			if loop != nil {
 				return "", fmt.Errorf("Stream: more than one loop")
 			}
 			loop = f
+			continue
+		}
+		if loop != nil {
+			afterLoop++
+			continue
+		}
+		if as, ok := s.(*ast.AssignStmt); ok && as.Tok == token.DEFINE && len(as.Lhs) == 1 && len(as.Rhs) == 1 {
+			prologue = append(prologue, fmt.Sprintf("(%s, %s)", q(exprString(as.Lhs[0])), q(exprString(as.Rhs[0]))))
+		} else {
+			prologueOther++
 		}
 	}
 	if loop == nil || len(loop.Body.List) != 1 {
@@ -264,8 +279,8 @@ func genIpcStreamShape(repo string) (string, error) {
 		parseCalls, q(parseArg), q(filtersFrom), q(ctorFilterArg), reqWrites)
 	fmt.Fprintf(&b, "def eventStream : EventStreamShape :=\n  { filterRange := %s, filterCond := %s, matchJumps := %v, unmatchedReturns := %v, chanCap := %s, streamRange := %s }\n\n",
 		q(filterRange), q(filterCond), filterJump == "goto", unmatchedReturns, chanCap, q(streamRange))
-	fmt.Fprintf(&b, "def queryLoop : QueryLoopShape :=\n  { recvs := [\n%s\n  ],\n    loopHasCondition := %v, doneCases := %d, doneCaseSendsAndReturns := %v, sendDoneSites := %d, breaksOrGotos := %d }\n\nend SerfModel.Gen.IpcStreamShape\n",
-		strings.Join(rows, ",\n"), loop.Cond != nil, doneCases, doneCaseOK, doneSites, breaks)
+	fmt.Fprintf(&b, "def queryLoop : QueryLoopShape :=\n  { recvs := [\n%s\n  ],\n    loopHasCondition := %v, doneCases := %d, doneCaseSendsAndReturns := %v, sendDoneSites := %d, breaksOrGotos := %d,\n    prologue := [%s],\n    prologueOther := %d, afterLoop := %d }\n\nend SerfModel.Gen.IpcStreamShape\n",
+		strings.Join(rows, ",\n"), loop.Cond != nil, doneCases, doneCaseOK, doneSites, breaks, strings.Join(prologue, ", "), prologueOther, afterLoop)
 	return b.String(), nil
 }
 
